@@ -5,7 +5,10 @@ SPEC = {
  "C10": dict(pkg="astria-conductor", n="about 60", about="`crates/astria-conductor/src/executor/mod.rs`, `executor/state.rs` / `src/state.rs`, `src/block_cache.rs`, and the reader loops in `src/sequencer/mod.rs` and `src/celestia/mod.rs`",
    specific="a particular interleaving of soft and firm block arrival (firm arriving first, soft far ahead, a stale or duplicate block after the other stream advanced), a particular commit-level mode, or an execution-session start offset",
    drive="The executor's unit tests (`src/executor/tests.rs`), `src/block_cache.rs` tests and `src/test_utils.rs` show how to build blocks and state; `State::try_from_execution_session`, `BlockCache`, `should_execute_firm_block`, `does_block_response_fulfill_contract` can be driven directly."),
- "C12": dict(pkg="astria-sequencer-relayer", n="about 70", about="`crates/astria-sequencer-relayer/src/relayer/write/conversion.rs` and `write/mod.rs`",
+ "C11": dict(pkg="astria-sequencer-relayer", n="about 52", about="`crates/astria-sequencer-relayer/src/relayer/submission.rs` (the submission-state file), `relayer/write/mod.rs` (try_submit, try_confirm_submission_from_last_session, the BlobSubmitter run loop), `relayer/mod.rs` (Relayer::run: startup from the state file, block stream start height) and `relayer/read.rs`",
+   specific="a crash/restart at a particular point (state file says `prepared` while the BlobTx is lost / pending / confirmed), a broadcast timeout followed by a retry, a particular batching of blocks before the restart, a torn or leftover temp file",
+   drive="The tests at the bottom of `submission.rs` show how to drive the state transitions on a temp dir; `tests/blackbox/` shows the mock Celestia app and mock sequencer (those black-box tests are slow and flaky on a loaded machine; run them with `--test blackbox -- --test-threads=1` only as an extra). A demonstration may drive `SubmissionStateAtStartup`, `StartedSubmission`, `PreparedSubmission`, `read::BlockStream` builder and the skip logic directly, or use the black-box helpers."),
+ "C12": dict(pkg="astria-sequencer-relayer", n="about 52", about="`crates/astria-sequencer-relayer/src/relayer/write/conversion.rs` and `write/mod.rs`",
    specific="block sizes close to the compressed payload limit, a block pushed back as pending, a particular rollup filter, blocks with zero or many rollups",
    drive="The tests at the bottom of `write/conversion.rs` show how to build blocks (`ConfigureSequencerBlock` from astria_core::protocol::test_utils) and drive `NextSubmission::try_add` / `take`."),
  "C14": dict(pkg="astria-sequencer", n="roughly 518", about="`crates/astria-sequencer/src/checked_actions/validator_update.rs`, `src/authority/component.rs`, `src/authority/state_ext.rs`, and end_block handling in `src/app/mod.rs`",
